@@ -285,7 +285,21 @@ func (c *fn) tryView(e ast.Expr) (cx, bool) {
 	if !ok {
 		return cx{}, false
 	}
+	if c.optionView(root, path) && !c.rawNilable {
+		// a view declared with an option type (nil-ness known): read as a slice / map, nil is empty
+		return c.lift([]cx{c.expr(root)}, func(v []string) string { return "(onil (" + name + " " + v[0] + "))" }), true
+	}
 	return c.lift([]cx{c.expr(root)}, func(v []string) string { return "(" + name + " " + v[0] + ")" }), true
+}
+
+// optionView: the view `path` on the opaque value root is declared with a Coq type `option (list ..)`:
+// a slice / map whose nil-ness is part of the view.
+func (c *fn) optionView(root ast.Expr, path string) bool {
+	tt := c.g.types[c.g.opaquePath(c.typeOf(root), c.sub)]
+	if tt == nil || tt.Views == nil {
+		return false
+	}
+	return strings.HasPrefix(strings.TrimSpace(tt.Views[path]), "option (list")
 }
 
 func (c *fn) selector(x *ast.SelectorExpr) cx {
@@ -323,7 +337,88 @@ func (c *fn) selector(x *ast.SelectorExpr) cx {
 		c.fail(x, "field selection on a value of type %s", types.TypeString(st, nil))
 	}
 	f := c.g.record(n).field(c.g, x.Sel.Name)
+	if f.nilable && !c.rawNilable {
+		// read as a slice / map: nil is empty
+		return c.lift([]cx{holder}, func(v []string) string { return "(onil (" + f.name + " " + v[0] + "))" })
+	}
 	return c.lift([]cx{holder}, func(v []string) string { return "(" + f.name + " " + v[0] + ")" })
+}
+
+// nilableSel: e selects a field declared in NilableFields (its record field is an option).
+func (c *fn) nilableSel(e ast.Expr) bool {
+	x, ok := unparen(e).(*ast.SelectorExpr)
+	if !ok {
+		return false
+	}
+	if root, path, isView := c.viewPath(x); isView {
+		if k := c.kindOf(x); (k == kSlice || k == kMap) && c.optionView(root, path) {
+			return true
+		}
+	}
+	sel, ok := c.info.Selections[x]
+	if !ok || sel.Kind() != types.FieldVal || len(sel.Index()) != 1 {
+		return false
+	}
+	st := c.typeOf(x.X)
+	if p, ok := st.(*types.Pointer); ok {
+		st = resolve(p.Elem(), c.sub)
+	}
+	n, ok := st.(*types.Named)
+	if !ok || c.g.kind(n, c.sub) != kStruct {
+		return false
+	}
+	tt := c.g.types[namedPath(n)]
+	if tt == nil {
+		return false
+	}
+	for _, nf := range tt.NilableFields {
+		if nf == x.Sel.Name {
+			return true
+		}
+	}
+	return false
+}
+
+// rawSel: the option behind a nilable field selection.
+func (c *fn) rawSel(e ast.Expr) cx {
+	c.rawNilable = true
+	defer func() { c.rawNilable = false }()
+	return c.selector(unparen(e).(*ast.SelectorExpr))
+}
+
+// nilableValue translates e where the option of a nilable field of type t is expected: nil, another
+// nilable field, or a value that is certainly not nil.
+func (c *fn) nilableValue(e ast.Expr, t types.Type) cx {
+	e = unparen(e)
+	if c.isNilExpr(e) {
+		return cx{s: "None"}
+	}
+	if c.nilableSel(e) {
+		return c.rawSel(e)
+	}
+	nonNil := false
+	switch x := e.(type) {
+	case *ast.CompositeLit:
+		nonNil = true
+	case *ast.CallExpr:
+		if id, ok := unparen(x.Fun).(*ast.Ident); ok {
+			if b, ok := c.info.Uses[id].(*types.Builtin); ok {
+				switch b.Name() {
+				case "make":
+					nonNil = true
+				case "append":
+					nonNil = len(x.Args) >= 2 && !x.Ellipsis.IsValid()
+				}
+			}
+		}
+		if tv, isT := c.info.Types[x.Fun]; isT && tv.IsType() && len(x.Args) == 1 && c.kindOf(x.Args[0]) == kString {
+			nonNil = true // []byte(s) is never nil
+		}
+	}
+	if !nonNil {
+		c.fail(e, "the value given to a nilable field must be nil, another nilable field, or certainly not nil (a literal, make, a conversion of a string): whether this one is nil is not known")
+	}
+	return c.lift([]cx{c.exprAs(e, t)}, func(v []string) string { return "(Some " + v[0] + ")" })
 }
 
 // pointee is the value a pointer-typed expression points to (partial unless
@@ -431,6 +526,15 @@ func (c *fn) exprAs(e ast.Expr, want types.Type) cx {
 			return c.lift([]cx{c.expr(e)}, func(v []string) string { return c.g.ifaceConv(v[0], et, want, c.sub, false) })
 		}
 		return c.expr(e)
+	}
+	if wk == kNilable && ek == kPtr {
+		if n := c.g.concreteOf(want, c.sub); n != nil {
+			// a *T into the interface that only ever holds *T: a non-nil interface value, also for a nil pointer
+			if p, ok := c.typeOf(e).(*types.Pointer); ok && types.Identical(resolve(p.Elem(), c.sub), n) {
+				return c.lift([]cx{c.expr(e)}, func(v []string) string { return "(PNew " + v[0] + ")" })
+			}
+			c.fail(e, "a %s is converted to interface %s, which is declared to hold only *%s", types.TypeString(c.typeOf(e), nil), types.TypeString(want, nil), n.Obj().Name())
+		}
 	}
 	if wk == kNilable && ek == kIfaceFn && c.g.nilableIsFn(want, c.sub) {
 		return c.lift([]cx{c.expr(e)}, func(v []string) string { return "(PNew " + v[0] + ")" })
@@ -630,6 +734,9 @@ func (c *fn) equality(x *ast.BinaryExpr) cx {
 		a, b = b, a
 	}
 	if c.isNilExpr(b) {
+		if c.nilableSel(a) {
+			return neg(c.lift([]cx{c.rawSel(a)}, func(v []string) string { return "(is_none " + v[0] + ")" }))
+		}
 		switch c.kindOf(a) {
 		case kPtr, kNilable:
 			if id, ok := a.(*ast.Ident); ok {
@@ -840,16 +947,19 @@ func (c *fn) compositeLitOf(x *ast.CompositeLit, t types.Type) cx {
 			f := r.field(c.g, fname)
 			if implementsError(n) && c.g.kind(f.typ, nil) == kString {
 				vals[fname] = c.msgOf(ve) // the message of an error struct: its text is not modelled
+			} else if f.nilable {
+				vals[fname] = c.nilableValue(ve, f.typ)
 			} else {
 				vals[fname] = c.exprAs(ve, f.typ)
 			}
 		}
 		var args []cx
-		for _, f := range r.fields {
+		for i := range r.fields {
+			f := &r.fields[i]
 			if v, ok := vals[f.goName]; ok {
 				args = append(args, v)
 			} else {
-				args = append(args, cx{s: c.g.zero(f.typ, nil)})
+				args = append(args, cx{s: f.zero(c.g)})
 			}
 		}
 		if len(r.omitted) > 0 {
